@@ -335,6 +335,9 @@ def Bracket.fmt (b : Bracket) : Except Err (List Char) :=
     match fmtAltItems b.items with
     | .error x => .error x
     | .ok a => .ok ('(' :: '?' :: ':' :: a ++ [')'])
+  else if b.items.all BracketItem.multi then
+    -- no single character is excluded, so any character matches (`[^]` would not be an empty complement)
+    .ok ['.']
   else
     match fmtItems (b.items.filter (fun it => !it.multi)) with
     | .error x => .error x
@@ -444,8 +447,9 @@ def classTok : List Char → Option (ClassTok × List Char)
 
 /-- items of a class up to the closing `]`.  A `]` where an item is expected with no item yet, an
     inverted range, or a class as range bound is an error of the regex compiler (`none`).
-    (In the regex crate a `]` right after `[` / `[^` is a literal; every text `toRegex` emits with that shape
-    then runs into "unclosed character class", so the model answers `none` at once.)
+    (In the regex crate a `]` right after `[` / `[^` is a literal and the class goes on; `toRegex` never emits
+    that shape — an all-multi complemented bracket is `.` since fix 8f1328d — so the model answers `none`:
+    outside the modelled subset.)
     `fuel`: one unit per item; the text length always suffices. -/
 def classItems : Nat → List ClassItem → List Char → Option (List ClassItem × List Char)
   | 0, _, _ => none
